@@ -6,7 +6,158 @@ C14 — copies, conversions and rebuilds denote the same matrix with the right d
 -/
 namespace LinOp.C14
 
+/-! ### Flatten / rebuild -/
+
+/-- **The slice bookkeeping of `LinearOperatorRepresentationTree.__init__` is right**: for every argument list
+(any length, any nesting) the counter advances by exactly the number of tensors `representation()` emits. -/
+theorem representation_length (xs : List Op) (h : representableL xs = true) :
+    widthL xs = (repL xs).length := widthL_eq xs h
+
+/-- **`representation_tree()(*representation())` returns the same operator** — every class in the layout table,
+any nesting depth, any number of positional / differentiable-keyword arguments, any trailing extra tensors —
+provided every node is as its constructor leaves it (`normal`: normal form of the class specific argument
+normalisation, keyword arguments known to the constructor, *hidden attributes at their defaults*).
+`cfg` is arbitrary: the theorem holds for every layout table the translator can generate. -/
+theorem rebuild_flatten (cfg : Cfg) (o : Op) (hn : normal cfg o = true) (hr : representable o = true)
+    (rest : List Leaf) : call cfg (tree o) (rep o ++ rest) = some o := by
+  have := call_tree cfg o hn hr [] rest
+  simpa [tree] using this
+
+/-- A constructor applied to what it stored (`cls(*_args, **_kwargs)`, the last step of every clone / detach /
+to / type / rebuild) is the identity on normal nodes. -/
+theorem constructor_idempotent (cfg : Cfg) (cls : String) (a : List Op) (dn : List String) (d : List Op)
+    (nkw hid : KV) (h : nodeOK cfg cls a dn d nkw hid = true) :
+    construct cfg cls a (kwOf dn d nkw) = some (.node cls a dn d nkw hid) := construct_fix cfg cls a dn d nkw hid h
+
+/-- The class specific normalisations (to_linear_operator wrapping, Triangular unwrapping, Cat's negative dim,
+Kernel's defaultdict) are the identity on their normal form. -/
+theorem normalise_idempotent (cls : String) (a : List Op) (kw : List (String × Op))
+    (h : normalForm cls a kw = true) : normalise cls a kw = some (a, kw) := normalise_fix cls a kw h
+
+def genCfg (d : DT) : Cfg := ⟨LinOp.Generated.C14.layoutOf, d⟩
+
+def tL (i : Nat) (dt : DT) : Op := .leaf ⟨dt, [2, 2], i, false, false⟩
+def exTri (up : Bool) : Op :=
+  .node "TriangularLinearOperator" [.node "DenseLinearOperator" [tL 0 .f32] [] [] [] []] [] [] [("upper", .bool up)] []
+def exChol (up : Bool) : Op := .node "CholLinearOperator" [exTri up] [] [] [] [("upper", .bool up)]
+def exInterp : Op :=
+  .node "InterpolatedLinearOperator"
+    [.node "DenseLinearOperator" [tL 0 .f32] [] [] [] [], tL 1 .i64, tL 2 .f32, tL 3 .i64, tL 4 .f32] [] [] [] []
+def exSum : Op :=
+  .node "SumLinearOperator" [exInterp, exChol false,
+    .node "ConstantDiagLinearOperator" [tL 5 .f32] [] [] [("diag_shape", .int 2)] []] [] [] [] []
+
+def hidOf : Op → KV
+  | .node _ _ _ _ _ h => h
+  | _ => []
+
+/-- Non-vacuity: a three-level nesting with integer tensors, keyword arguments and a hidden attribute at its
+default satisfies the hypotheses of `rebuild_flatten` for today's generated layout table. -/
+theorem rebuild_flatten_hypotheses_satisfiable :
+    normal (genCfg .f32) exSum = true ∧ representable exSum = true ∧ (rep exSum).length = 7 := by
+  decide +kernel
+
+/-- **D16 (counterexample)**: `CholLinearOperator(R, upper=True)` is *not* reproduced by the rebuild — the result
+has `upper = False`, because `upper` never reaches `_kwargs` (today's layout table lists it as hidden). -/
+theorem rebuild_flatten_chol_upper_counterexample :
+    (call (genCfg .f32) (tree (exChol true)) (rep (exChol true))).map hidOf = some [("upper", .bool false)] ∧
+    hidOf (exChol true) = [("upper", .bool true)] := by
+  decide +kernel
+
+/-- **D16 (partial)**: with the flag at its default the Cholesky operator round-trips. -/
+theorem rebuild_flatten_chol_partial (rest : List Leaf) :
+    call (genCfg .f32) (tree (exChol false)) (rep (exChol false) ++ rest) = some (exChol false) :=
+  rebuild_flatten _ _ (by decide +kernel) (by decide +kernel) rest
+
+/-! ### Conversions: which tensors are cast -/
+
+/-- **`type` / `double` / `float` cast exactly the floating tensors** held directly by an operator, and clone all. -/
+theorem type_casts_exactly_float (t : DT) (g : Bool) (l : Leaf) :
+    (convLeaf (.type t) g l).dt = (if l.dt.isFloat then t else l.dt) ∧ (convLeaf (.type t) g l).fresh = true ∧
+    (convLeaf (.type t) g l).shape = l.shape ∧ (convLeaf (.type t) g l).rg = l.rg := by
+  unfold convLeaf; cases h : l.dt.isFloat <;> simp [h]
+
+/-- **Index tensors are never cast** by the `to` overrides of Interpolated / Masked operators (`guard`). -/
+theorem index_tensors_not_cast (t : DT) (l : Leaf) (h : l.dt.isFloat = false) :
+    (convLeaf (.to t) true l) = l ∧ (convLeaf (.cloneTo t) true l).dt = l.dt ∧ (convLeaf (.type t) true l).dt = l.dt := by
+  unfold convLeaf; simp [h]
+
+/-- **D18 (counterexample)**: the base-class `to` casts *every* tensor argument, so an integer tensor held by a class
+without a `to` override (PermutationLinearOperator) becomes floating point. -/
+theorem to_casts_index_counterexample :
+    (convLeaf (.to .f64) false ⟨.i64, [3], 0, false, false⟩).dt = .f64 ∧
+    (conv (genCfg .f32) (.to .f64)
+      (.node "PermutationLinearOperator" [.leaf ⟨.i64, [3], 0, false, false⟩, .leaf ⟨.i64, [3], 1, false, false⟩]
+        [] [] [("validate_args", .bool false)] [])).map (fun o => (rep o).map (·.dt)) = some [.f64, .f64] := by
+  decide +kernel
+
+/-- **D18 (partial)**: below an Interpolated operator the integer index tensors survive `to` and `type` at any
+nesting level of this example (Sum → Interpolated → Dense). -/
+theorem to_keeps_index_example :
+    (conv (genCfg .f32) (.to .f64) exSum).map (fun o => (rep o).map (·.dt)) =
+      some [.f64, .i64, .f64, .i64, .f64, .f64, .f64] ∧
+    (conv (genCfg .f32) (.type .f64) exSum).map (fun o => (rep o).map (·.dt)) =
+      some [.f64, .i64, .f64, .i64, .f64, .f64, .f64] := by
+  decide +kernel
+
+/-- clone gives every tensor fresh storage; detach clears requires_grad and shares storage. -/
+theorem clone_fresh_detach_shares (g : Bool) (l : Leaf) :
+    (convLeaf .clone g l).fresh = true ∧ (convLeaf .clone g l).dt = l.dt ∧
+    (convLeaf .detach g l).rg = false ∧ (convLeaf .detach g l).fresh = l.fresh ∧ (convLeaf .detach g l).id = l.id := by
+  simp [convLeaf]
+
+/-- `_set_requires_grad` touches exactly the floating tensors held directly by an operator. -/
+theorem requires_grad_exactly_float (cfg : Cfg) (v : Bool) (l : Leaf) :
+    setRG cfg v (.leaf l) = .leaf (if l.dt.isFloat then { l with rg := v } else l) := by
+  simp [setRG]
+
+/-- **D17 (counterexample)**: a ZeroLinearOperator built with `dtype=float64` reports float64, its copy reports
+torch's default dtype (the dtype is a hidden attribute that no copy carries over). -/
+theorem zero_dtype_lost_counterexample :
+    let z : Op := .node "ZeroLinearOperator" [.val (.int 3), .val (.int 3)] [] [] [] [("dtype", .dt .f64), ("device", .none)]
+    dtypeOf (genCfg .f32) false z = some .f64 ∧
+    ((conv (genCfg .f32) .clone z).bind (dtypeOf (genCfg .f32) false)) = some .f32 := by
+  decide +kernel
+
 /-! ### Obligations on the tables generated from today's source -/
+
+open LinOp.Generated.C14 in
+/-- The translator expressed every constructor chain as a layout. -/
+theorem layouts_complete : issues = [] := by decide +kernel
+
+open LinOp.Generated.C14 in
+/-- **Constructor parameters that never reach `_args`/`_kwargs`** (and are therefore reset by every copy and
+rebuild) are exactly the reviewed ones: Chol.upper (D16), KroneckerProductTriangular.upper (D16b),
+Zero.dtype/device (D17).  A new dropped parameter breaks this obligation. -/
+theorem hidden_parameters_reviewed :
+    ∀ c ∈ classes, ∀ h ∈ c.2.hidden, (c.1, h.1) ∈
+      [("CholLinearOperator", "upper"), ("KroneckerProductTriangularLinearOperator", "upper"),
+       ("ZeroLinearOperator", "dtype"), ("ZeroLinearOperator", "device")] := by
+  decide +kernel
+
+open LinOp.Generated.C14 in
+/-- Layout sanity: stored positionals are a prefix of the signature, `*args` classes have no named stored
+positionals, consumed parameters are only the block operators' `block_dim` (normalised to −3 by a permute). -/
+theorem layouts_wellformed :
+    ∀ c ∈ classes, c.2.npos ≤ c.2.posNames.length ∧ (c.2.vararg = true → c.2.npos = 0) ∧
+      (∀ k ∈ c.2.consumed, k = "block_dim") ∧
+      (∀ k ∈ c.2.kwStored, !hasKey c.2.hidden k.1 && !c.2.consumed.contains k.1) := by
+  decide +kernel
+
+open LinOp.Generated.C14 in
+/-- The copy / conversion methods are overridden only where the model mirrors an override. -/
+theorem overrides_reviewed :
+    ∀ c ∈ overrides, ∀ m ∈ c.2, (c.1, m) ∈
+      [("CatLinearOperator", "to"), ("CatLinearOperator", "device"),
+       ("IdentityLinearOperator", "to"), ("IdentityLinearOperator", "type"), ("IdentityLinearOperator", "dtype"),
+       ("IdentityLinearOperator", "device"), ("InterpolatedLinearOperator", "to"), ("MaskedLinearOperator", "to"),
+       ("TransposePermutationLinearOperator", "type"), ("TransposePermutationLinearOperator", "dtype"),
+       ("TransposePermutationLinearOperator", "device"), ("ZeroLinearOperator", "dtype"), ("ZeroLinearOperator", "device"),
+       ("ZeroLinearOperator", "to"), ("ZeroLinearOperator", "type"),
+       ("AddedDiagLinearOperator", "evaluate_kernel"), ("MulLinearOperator", "representation"),
+       ("MulLinearOperator", "representation_tree")] := by
+  decide +kernel
+
 
 /-- Reviewed allocation sites that use torch's default dtype: index lists, scalars whose dtype is irrelevant,
 and the two `ZeroLinearOperator` sites of defect D17 (`to_dense`, `_get_indices`). -/
